@@ -1,5 +1,5 @@
 SPEC = {
-    "claimed": False,
+    "claimed": True,
     "gen": [],
     "theorems": ["C12_chunks", "C12_exactly_once", "C12_every_answer", "C12_incomplete_never_delivers",
                  "C12_at_most_once", "C12_old_ticks_harmless", "C12_newer_replaces", "C12_no_panic",
